@@ -190,8 +190,15 @@ class Ops2(Ops):
         f.defers.append((callee, args, ins))
 
     def op_Go(self, st, f, ins):
-        # goroutines are run to completion at the spawn point (one schedule);
+        # goroutines are run to completion at the spawn point (the "eager" schedule);
         # blocking operations inside abort the path as unsupported.
+        # After verifLazyGoroutines(true) they are parked instead and run, in spawn order, at the next
+        # sync.WaitGroup.Wait (the "lazy" schedule: everything the spawner does before it joins
+        # happens first). The two schedules are the extremes of the interleavings a join allows.
+        if st.ghost.get('go_lazy'):
+            callee, args = self.resolve_call(st, f, ins)
+            st.ghost['go_pending'] = st.ghost.get('go_pending', ()) + ((callee, tuple(args), ins),)
+            return None
         return self.call_common(st, f, ins, 'go')
 
     def resolve_call(self, st, f, ins):
@@ -266,6 +273,9 @@ class Ops2(Ops):
             self.models_used.add(name)
             r = model(self, st, args, ins, fn)
             if isinstance(r, Redirect):
+                if r.stay:
+                    # run r.callee, then execute the current instruction again
+                    return self.invoke(st, f, r.callee, r.args, None, r.ins or ins, False, 'go')
                 return self.invoke(st, f, r.callee, r.args, dest, ins, advance, mode)
             if r is not NotImplemented:
                 if dest is not None:
